@@ -248,14 +248,32 @@ func runCheck(id, tier, repo, dump, only string, list bool) int {
 		}
 		return 0
 	}
-	secs := 10
+	secs := 15
 	if tier == "thorough" {
 		secs = 60
 	}
+	knownObl := map[string]bool{}
+	if tier != "thorough" {
+		for _, k := range loadKnown() {
+			if k.Prop == id {
+				knownObl[k.Obl] = true
+			}
+		}
+	}
 	outDir := filepath.Join(verifDir, "out", id)
 	os.RemoveAll(outDir)
-	stats := solveAll(all, SolveOpts{Secs: secs, Agree: tier == "thorough", OutDir: outDir, Parallel: 16, Seed: seed})
+	stats := solveAll(all, SolveOpts{Secs: secs, Agree: tier == "thorough", OutDir: outDir, Parallel: 16, Seed: seed, Known: knownObl})
 	escalateCovers(all, stats)
+	if v := os.Getenv("GOVC_SLOW"); v != "" {
+		// diagnostics: obligations that needed more than the given number of seconds of solver time
+		var lim float64
+		fmt.Sscan(v, &lim)
+		for _, o := range all {
+			if o.Secs >= lim && o.Expect != "sat" {
+				fmt.Fprintf(os.Stderr, "slow %6.1fs %-8s %-7s %s\n", o.Secs, o.Verdict, o.Solver, o.Name)
+			}
+		}
+	}
 	rep := buildReport(id, tier, seed, &claim, results, all, stats, internalErrs, engines, repo, time.Since(t0).Seconds(), list)
 	return rep
 }
